@@ -203,6 +203,32 @@ pub fn run(ctx: &Ctx, rep: &mut Report) {
             if fs.len() < 2 {
                 continue;
             }
+            // well-known dates with every time-of-day corner
+            if let (Some(y), Some(m), Some(d)) = (fs.iter().find(|f| f.key == "year"), fs.iter().find(|f| f.key == "month"), fs.iter().find(|f| f.key == "day")) {
+                let times: Vec<&ExpF> = fs.iter().filter(|f| matches!(f.key, "hour" | "minute" | "second")).collect();
+                let tt: u64 = times.iter().map(|f| notable(f.key).len() as u64).product();
+                for (di, (yy, mm, dd)) in super::c04::EPOCH_DATES.iter().enumerate() {
+                    if !ctx.mine(di as u64) {
+                        continue;
+                    }
+                    for combo in 0..tt {
+                        let mut bits = fresh(b, &mut r);
+                        bits.put(y.start as usize, y.width as usize, *yy);
+                        bits.put(m.start as usize, m.width as usize, *mm);
+                        bits.put(d.start as usize, d.width as usize, *dd);
+                        let mut x = combo;
+                        for f in &times {
+                            let vs = notable(f.key);
+                            bits.put(f.start as usize, f.width as usize, vs[(x % vs.len() as u64) as usize]);
+                            x /= vs.len() as u64;
+                        }
+                        n += 1;
+                        gen::run_message(rep, PID, Some(11), &bits, via_for(n), b.name);
+                        rep.count("epoch-dates");
+                    }
+                }
+                rep.class(format!("{}|epoch-dates", b.name));
+            }
             let total: u64 = fs.iter().map(|f| notable(f.key).len() as u64).product();
             for combo in 0..total {
                 if !ctx.mine(item2 / 64) {
